@@ -13,15 +13,15 @@ import (
 // mask the data as to unmask the data.
 func Cipher(payload []byte, mask [4]byte, offset int) {
 	n := len(payload)
+	// Calculate position in mask due to previously processed bytes number.
+	mpos := offset % 4
 	if n < 8 {
 		for i := 0; i < n; i++ {
-			payload[i] ^= mask[(offset+i)%4]
+			payload[i] ^= mask[(mpos+i)%4]
 		}
 		return
 	}
 
-	// Calculate position in mask due to previously processed bytes number.
-	mpos := offset % 4
 	// Count number of bytes will processed one by one from the beginning of payload.
 	ln := remain[mpos]
 	// Count number of bytes will processed one by one from the end of payload.
